@@ -20,8 +20,10 @@ meta.update({
 })
 meta.setdefault('checks', {})[check] = {'exit': rc, 'detected': rc == 1, 'fingerprints': fps,
                                         'how': f'tools/seed_check.sh {name} {check} (scratch worktree of /repo HEAD + patch, GNPY_REPO)'}
-if '_w2_' in name or '_w3_' in name or '_w4_' in name:
-    w = 2 if '_w2_' in name else (3 if '_w3_' in name else 4)
+import re as _re
+_m = _re.search(r'_w(\d)_', name)
+if _m:
+    w = int(_m.group(1))
     prop, short = name.split(f'_w{w}_', 1)
     ip = f'/verif/seeded/wave{w}_initial.json'
     init = json.load(open(ip)).get(prop, {}) if os.path.exists(ip) else {}
